@@ -289,9 +289,18 @@ def render_str(L, s, in_bracket):
     sep = L.ws(in_bracket)
     if sep == '' and r.random() < 0.7:
       sep = ' '
+    nxt = _render_piece(L, p, is_bytes)
     if sep == '':
-      L.used.add('adjacent-nosep')
-    out += sep + _render_piece(L, p, is_bytes)
+      # adjacent pieces without separator are only valid when the quotes do not merge ('' + '' -> '''')
+      try:
+        ok = eval('(' + out + nxt + ')', {}) == eval('(' + out + ' ' + nxt + ')', {})  # pylint: disable=eval-used
+      except Exception:  # pylint: disable=broad-except
+        ok = False
+      if ok:
+        L.used.add('adjacent-nosep')
+      else:
+        sep = ' '
+    out += sep + nxt
   return out
 
 
